@@ -9,11 +9,12 @@ What is NOT in these theorems: pandas.  A DataFrame is the (index, ordered colum
 pandas; what pandas does to cells enters as the parameter `Coercion`, instantiated from the reflected table
 `Fsic.Generated.pandasCoercion` (`installed`).  dtype preservation is observed on the real DataFrame by the harness.
 
-Findings visible in this file (the model follows the code):
-* `symbols_roundtrip` is FALSE of the code with the installed pandas: `symbols_roundtrip_false_at_witness`
-  (`equation` / `code` / `name` come back as NaN), `symbols_roundtrip_raises_at_witness` (a list whose `lags` are
-  all missing makes the decoder raise).  `symbols_roundtrip_partial` gives the exact guard, `symbols_roundtrip_fixed`
-  the statement for the candidate patch.
+Visible in this file (the model follows the code):
+* `symbols_roundtrip` holds at full strength for the code's decoder under the installed pandas: every symbol list
+  comes back as it went in.  (Before fsic commit 56f842e it was false: a missing `name` / `equation` / `code` came
+  back as NaN and a list whose `lags` / `leads` were all missing made the decoder raise; the two former failing
+  witnesses are now `example`s of the theorem.)  `symbols_roundtrip_iff_decoderOk` characterises the decoders for
+  which it holds, for any coercion.
 * `linker_tables` needs the guard "the linker's name is not a submodel key": `linker_tables_false_at_witness`
   (a dict cannot hold two tables under one key, so this is a limit of the interface rather than a defect of the
   code; the oracle does not report it, the correspondence check still compares it).
@@ -416,10 +417,9 @@ theorem decoderOk_of_symbols_roundtrip (dec : Decoder) (c : Coercion)
       equation := ⟨fun s => (p s 0).2.2.2.2.2.1, m2'.2.2.2.2.2.1, a.2.2.2.2.2.1⟩
       code := ⟨fun s => (p s 0).2.2.2.2.2.2, m2'.2.2.2.2.2.2, a.2.2.2.2.2.2⟩ }
 
-/-- **symbols_roundtrip** (full statement, parametric in decoder and coercion): the round trip returns the original
-    list for every symbol list IFF the decoder maps the coercion's missing markers back to `None` in every
-    optional field. -/
-theorem symbols_roundtrip (dec : Decoder) (c : Coercion) :
+/-- Parametric in decoder and coercion: the round trip returns the original list for every symbol list IFF the
+    decoder maps the coercion's missing markers back to `None` in every optional field. -/
+theorem symbols_roundtrip_iff_decoderOk (dec : Decoder) (c : Coercion) :
     (∀ ss, ValidTypes ss → RoundTrips dec c ss) ↔ DecoderOk dec c :=
   ⟨decoderOk_of_symbols_roundtrip dec c, fun h ss hv => symbols_roundtrip_of_decoderOk dec c h ss hv⟩
 
@@ -436,102 +436,82 @@ theorem installed_intPresent (i : Int) : installed.intPresent i = .flt i := by
   have : tagOf Fsic.Generated.pandasCoercion "int_mixed_present" = "float" := by decide
   rw [this]; rfl
 
-/-- The symbol list of `parse_model('Y = C')`. -/
+/-- The symbol list of `parse_model('Y = C')` (the exogenous symbol has no equation / code). -/
 def witnessYC : List Symbol :=
   [⟨some "Y", 3, some 0, some 0, some "Y[t] = C[t]", some "self._Y[t] = self._C[t]"⟩,
    ⟨some "C", 2, some 0, some 0, none, none⟩]
 
-/-- The symbol list of a script that consists of one verbatim block. -/
+/-- The symbol list of a script that consists of one verbatim block (no name, every `lags` / `leads` missing). -/
 def witnessVerbatim : List Symbol := [⟨none, 8, none, none, some "```\nx = 1\n```", some "x = 1"⟩]
 
-/-- FINDING.  The full statement (`∀ ss, RoundTrips codeDecoder installed ss`) is FALSE: for `Y = C` the exogenous
-    symbol comes back with `equation = NaN`, `code = NaN`. -/
-theorem symbols_roundtrip_false_at_witness :
-    ValidTypes witnessYC ∧ ¬ RoundTrips codeDecoder installed witnessYC ∧
+/-- The code's decoder restores every optional field under ANY coercion whose missing markers are `None` or NaN and
+    that hands a present int back as an int or as the float holding it (so not only under the pandas installed
+    now). -/
+theorem codeDecoder_ok_of_markers (c : Coercion)
+    (h1 : isMissing c.strMixed = true) (h2 : isMissing c.strAll = true)
+    (h3 : isMissing c.intMixed = true) (h4 : isMissing c.intAll = true)
+    (h5 : ∀ i, c.intPresent i = .int i ∨ c.intPresent i = .flt i) : DecoderOk codeDecoder c := by
+  have hp : ∀ i, convertToIntOrNone (c.intPresent i) = some (.int i) := by
+    intro i; rcases h5 i with e | e <;> rw [e] <;> rfl
+  refine ⟨⟨fun _ => rfl, ?_, ?_⟩, ⟨fun _ => rfl, hp, ?_, ?_⟩, ⟨fun _ => rfl, hp, ?_, ?_⟩, ⟨fun _ => rfl, ?_, ?_⟩,
+    ⟨fun _ => rfl, ?_, ?_⟩⟩ <;>
+  simp [codeDecoder, convertToStrOrNone, convertToIntOrNone, h1, h2, h3, h4]
+
+/-- **codeDecoder_ok.**  The code's decoder maps the installed pandas' missing markers back to `None` (and leaves
+    present values alone) in every optional field. -/
+theorem codeDecoder_ok : DecoderOk codeDecoder installed := by
+  obtain ⟨h1, h2, h3, h4, _, _⟩ := installed_coercion_observed
+  exact codeDecoder_ok_of_markers installed (by rw [h1]; rfl) (by rw [h2]; rfl) (by rw [h3]; rfl) (by rw [h4]; rfl)
+    (fun i => Or.inr (installed_intPresent i))
+
+example : codeDecoder.equation installed.strMixed = some .none ∧ codeDecoder.lags installed.intAll = some .none ∧
+    codeDecoder.lags (installed.intPresent (-2)) = some (.int (-2)) ∧ codeDecoder.name (.str "nan") = some (.str "nan") := by
+  decide
+
+/-- **symbols_roundtrip.**  For the code's decoder and the installed pandas,
+    `dataframe_to_symbols(symbols_to_dataframe(ss))` returns the original list — for EVERY symbol list (any length,
+    any mix of present and missing fields; `ValidTypes` is the typing of `Symbol.type` as a member of the `Type`
+    enum, not a restriction on the lists: see `symbols_roundtrip_iff_validTypes`). -/
+theorem symbols_roundtrip (ss : List Symbol) (hv : ValidTypes ss) :
+    tableToSymbols codeDecoder (symbolsToTable installed ss) = some (ss.map Symbol.toPy) :=
+  symbols_roundtrip_of_decoderOk codeDecoder installed codeDecoder_ok ss hv
+
+/-- The former failing inputs: `Y = C` (missing equation / code next to present ones: NaN in the table) … -/
+example : ValidTypes witnessYC ∧
+    (symbolsToTable installed witnessYC).map (fun r => (r.equation, r.code)) =
+      [(.str "Y[t] = C[t]", .str "self._Y[t] = self._C[t]"), (.nan, .nan)] ∧
     tableToSymbols codeDecoder (symbolsToTable installed witnessYC) =
       some [⟨.str "Y", 3, .int 0, .int 0, .str "Y[t] = C[t]", .str "self._Y[t] = self._C[t]"⟩,
-            ⟨.str "C", 2, .int 0, .int 0, .nan, .nan⟩] := by
-  refine ⟨by decide, by decide, by decide⟩
+            ⟨.str "C", 2, .int 0, .int 0, .none, .none⟩] ∧
+    RoundTrips codeDecoder installed witnessYC := by
+  refine ⟨by decide, by decide, by decide, by decide⟩
 
-/-- FINDING.  A list whose `lags` (or `leads`) are all missing makes the decoder raise (`np.isnan(None)`). -/
-theorem symbols_roundtrip_raises_at_witness :
-    ValidTypes witnessVerbatim ∧ tableToSymbols codeDecoder (symbolsToTable installed witnessVerbatim) = none := by
-  refine ⟨by decide, by decide⟩
+/-- … and a verbatim-only list (name and every `lags` / `leads` missing: `None` in the table). -/
+example : ValidTypes witnessVerbatim ∧
+    (symbolsToTable installed witnessVerbatim).map (fun r => (r.name, r.lags, r.leads)) = [(.none, .none, .none)] ∧
+    tableToSymbols codeDecoder (symbolsToTable installed witnessVerbatim) =
+      some [⟨.none, 8, .none, .none, .str "```\nx = 1\n```", .str "x = 1"⟩] ∧
+    RoundTrips codeDecoder installed witnessVerbatim := by
+  refine ⟨by decide, by decide, by decide, by decide⟩
 
-/-- The code's decoder is not `DecoderOk` for the installed coercion (so by `symbols_roundtrip` some list fails). -/
-theorem codeDecoder_not_ok : ¬ DecoderOk codeDecoder installed := by
-  intro h
-  have := h.equation.2.1
-  revert this; decide
-
-/-- The exact guard for the code as it is, under the installed pandas: no str column (`name`, `equation`, `code`)
-    mixes present and missing entries, and no int column (`lags`, `leads`) consists of missing entries only. -/
-def CodeGuard (ss : List Symbol) : Prop :=
-  ((flagsOf ss).nameSome = true → ∀ s ∈ ss, s.name ≠ none) ∧
-  ((flagsOf ss).equationSome = true → ∀ s ∈ ss, s.equation ≠ none) ∧
-  ((flagsOf ss).codeSome = true → ∀ s ∈ ss, s.code ≠ none) ∧
-  ((flagsOf ss).lagsSome = false → ∀ s ∈ ss, s.lags ≠ none) ∧
-  ((flagsOf ss).leadsSome = false → ∀ s ∈ ss, s.leads ≠ none)
-
-theorem codeStr_iff (f : Bool) (x : Option String) :
-    (some (encodeStr installed f x) = some (ofStr x)) ↔ (f = true → x ≠ none) := by
-  have h1 : installed.strMixed = .nan := installed_coercion_observed.1
-  have h2 : installed.strAll = .none := installed_coercion_observed.2.1
-  cases x with
-  | some s => simp [encodeStr, ofStr]
-  | none => cases f <;> simp [encodeStr, ofStr, h1, h2]
-
-theorem codeInt_iff (f g : Bool) (x : Option Int) :
-    (convertToIntOrNone (encodeInt installed f g x) = some (ofInt x)) ↔ (f = false → x ≠ none) := by
-  have h1 : installed.intMixed = .nan := installed_coercion_observed.2.2.1
-  have h2 : installed.intAll = .none := installed_coercion_observed.2.2.2.1
-  cases x with
-  | some i => cases g <;> simp [encodeInt, ofInt, convertToIntOrNone, installed_intPresent]
-  | none => cases f <;> simp [encodeInt, ofInt, h1, h2, convertToIntOrNone]
-
-/-- **symbols_roundtrip_partial.**  For the code's decoder and the installed pandas the round trip returns the
-    original list exactly on the lists that satisfy `CodeGuard` (both directions: the guard is exact). -/
-theorem symbols_roundtrip_partial (ss : List Symbol) (hv : ValidTypes ss) :
-    RoundTrips codeDecoder installed ss ↔ CodeGuard ss := by
-  rw [roundTrips_iff_rows]
-  simp only [decodeRow_eq_iff, encodeRow, Symbol.toPy, codeDecoder, codeStr_iff, codeInt_iff]
-  unfold CodeGuard
-  constructor
-  · intro h
-    refine ⟨fun f s hs => (h s hs).2.2.1 f, fun f s hs => (h s hs).2.2.2.2.2.1 f, fun f s hs => (h s hs).2.2.2.2.2.2 f,
-      fun f s hs => (h s hs).2.2.2.1 f, fun f s hs => (h s hs).2.2.2.2.1 f⟩
-  · intro ⟨a, b, c, d, e⟩ s hs
-    exact ⟨hv s hs, trivial, fun f => a f s hs, fun f => d f s hs, fun f => e f s hs, fun f => b f s hs, fun f => c f s hs⟩
-
-/-- The guard is met by real parser output, e.g. `parse_model('Y = 2 * Y[-1]')` (one symbol, nothing missing) … -/
-example : ValidTypes [⟨some "Y", 3, some (-1), some 0, some "Y[t] = 2 * Y[t-1]", some "self._Y[t] = 2 * self._Y[t-1]"⟩] ∧
-    RoundTrips codeDecoder installed
-      [⟨some "Y", 3, some (-1), some 0, some "Y[t] = 2 * Y[t-1]", some "self._Y[t] = 2 * self._Y[t-1]"⟩] := by
-  refine ⟨by decide, by decide⟩
-
-/-- … and the mixed `lags` / `leads` columns of lists with functions are restored (NaN -> None, 0.0 -> 0). -/
+/-- Mixed `lags` / `leads` columns (lists with functions) are restored too (NaN -> None, 0.0 -> 0). -/
 example : tableToSymbols codeDecoder (symbolsToTable installed
       [⟨some "Y", 3, some 0, some 2, some "e", some "c"⟩, ⟨some "exp", 6, none, none, some "e2", some "c2"⟩]) =
     some [⟨.str "Y", 3, .int 0, .int 2, .str "e", .str "c"⟩, ⟨.str "exp", 6, .none, .none, .str "e2", .str "c2"⟩] := by
   decide
 
-/-- The candidate patch (missing -> `None` in `name` / `equation` / `code`, and `None` accepted in `lags` / `leads`)
-    satisfies the decoder condition for the installed pandas … -/
-theorem fixedDecoder_ok : DecoderOk fixedDecoder installed := by
-  have h1 : installed.strMixed = .nan := installed_coercion_observed.1
-  have h2 : installed.strAll = .none := installed_coercion_observed.2.1
-  have h3 : installed.intMixed = .nan := installed_coercion_observed.2.2.1
-  have h4 : installed.intAll = .none := installed_coercion_observed.2.2.2.1
-  refine ⟨⟨fun _ => rfl, ?_, ?_⟩, ⟨fun _ => rfl, ?_, ?_, ?_⟩, ⟨fun _ => rfl, ?_, ?_, ?_⟩, ⟨fun _ => rfl, ?_, ?_⟩,
-    ⟨fun _ => rfl, ?_, ?_⟩⟩ <;>
-  simp [fixedDecoder, h1, h2, h3, h4, missingToNone, intOrNoneFixed, installed_intPresent]
+/-- `ValidTypes` is exact: with the code's decoder and the installed pandas a list round-trips IFF every `type`
+    is a value of the `Type` enum (`Type(x)` raises ValueError otherwise; a `Symbol` whose `type` is a `Type`
+    member always qualifies). -/
+theorem symbols_roundtrip_iff_validTypes (ss : List Symbol) :
+    RoundTrips codeDecoder installed ss ↔ ValidTypes ss := by
+  constructor
+  · intro h s hs
+    exact ((decodeRow_eq_iff _ _ _).mp ((roundTrips_iff_rows _ _ _).mp h s hs)).1
+  · exact symbols_roundtrip ss
 
-/-- **symbols_roundtrip_fixed.**  … so with the patch the round trip returns the original list for every symbol
-    list. -/
-theorem symbols_roundtrip_fixed (ss : List Symbol) (hv : ValidTypes ss) : RoundTrips fixedDecoder installed ss :=
-  symbols_roundtrip_of_decoderOk fixedDecoder installed fixedDecoder_ok ss hv
-
-example : RoundTrips fixedDecoder installed witnessYC ∧ RoundTrips fixedDecoder installed witnessVerbatim := by
+example : ¬ ValidTypes [⟨some "Y", 0, some 0, some 0, none, none⟩] ∧
+    tableToSymbols codeDecoder (symbolsToTable installed [⟨some "Y", 0, some 0, some 0, none, none⟩]) = none := by
   refine ⟨by decide, by decide⟩
 
 end Fsic.C19
